@@ -94,7 +94,7 @@ def op_catalog(rng, s):
 
 def hout_for(rng, kind, fail_p):
     ok = rng.random() >= fail_p
-    s = "h=ok" if ok else "h=fail"
+    s = "h=ok" if ok else ("h=fail" + rng.choice(["", "", "", "I", "P", "S", "F", "M", "X"]))
     s += f",v={rng.choice([0, 1, 0x100, 0xffff, 2**32 - 1, 2**63, 2**64 - 1, rng.getrandbits(64)]):x}"
     if kind == "config":
         s += ",b=%s" % rng.choice(["-", "00", "0102030405060708", "11" * 0x100, "22" * 0xff0, "33" * 0xff4, "33" * 0xff4, "44" * 0xff3])
@@ -167,9 +167,14 @@ class FeFamily(Family):
             ops.append((f"set_protocol_features {pm:x}", "h=ok", "-"))
             if virt & vu.F_PROTOCOL_FEATURES:
                 s.ap = pm
-        if rng.random() < 0.5:
-            ops.append(("set_hdr_flags 8", "", ""))
+        r_ = rng.random()
+        if r_ < 0.5:
+            # NEED_REPLY, sometimes together with the VERSION constant of the flag type (must not change the wire version)
+            v_ = 8 if r_ < 0.4 else rng.choice([0xb, 0x9, 0xa])
+            ops.append((f"set_hdr_flags {v_:x}", "", ""))
             s.flags = 8
+        elif r_ < 0.56:
+            ops.append((f"set_hdr_flags {rng.choice([3, 1, 2]):x}", "", ""))
         return [f"{o} {h if srv else ('r=' + r if r else '')}".strip() for o, h, r in ops]
 
     def gen_srv(self, rng, n):
